@@ -45,7 +45,12 @@ def compute_poc(force, method="deviation_from_baseline", ret_details=False):
         if mfunc.identifier == method:
             if "clip_approach" in mfunc.preprocessing:
                 force = compute_preproc_clip_approach(force)
-            data = mfunc(force, ret_details=ret_details)
+            if force.size == 0 or np.ptp(force) == 0:
+                # Degenerate data (e.g. constant or decreasing force):
+                # There is nothing to estimate (and nothing to normalize).
+                data = (np.nan, {}) if ret_details else np.nan
+            else:
+                data = mfunc(force, ret_details=ret_details)
             if ret_details:
                 cp, details = data
                 details["method"] = method
@@ -54,7 +59,8 @@ def compute_poc(force, method="deviation_from_baseline", ret_details=False):
             break
     else:
         raise ValueError(f"Undefined POC method '{method}'!")
-    if np.isnan(cp):
+    if np.isnan(cp) or not 0 <= cp < force.size:
+        # also covers fit results outside of the data
         cp = force.size // 2
     if ret_details:
         return cp, details
